@@ -354,6 +354,8 @@ pub enum Native {
     EnumStruct { a: u8, b: String },
     Char(char),
     Bytes(Vec<u8>),
+    /// a value whose Serialize impl FAILS after it has produced some output (a set_claim with it cannot succeed: no verdict on that call)
+    Unserialisable,
 }
 
 #[derive(Serialize)]
@@ -397,6 +399,13 @@ impl<'a> Serialize for NativeSer<'a> {
             Native::EnumUnit => NEnum::Unit.serialize(s),
             Native::EnumNewtype(x) => NEnum::Newtype(*x).serialize(s),
             Native::EnumStruct { a, b } => NEnum::Struct { a: *a, b }.serialize(s),
+            Native::Unserialisable => {
+                use serde::ser::SerializeSeq;
+                let mut seq = s.serialize_seq(Some(3))?;
+                seq.serialize_element(&1)?;
+                seq.serialize_element("two")?;
+                Err(<S::Error as serde::ser::Error>::custom("harness: this value refuses to serialise"))
+            }
             Native::Char(c) => c.serialize(s),
             Native::Bytes(b) => b.serialize(s),
         }
@@ -416,6 +425,7 @@ pub fn native_value(n: &Native) -> Value {
         Native::Unit => Value::Null,
         Native::OptNone => Value::Null,
         Native::OptSome(x) => json!(x),
+        Native::Unserialisable => Value::Null,
         Native::VecI(x) => json!(x),
         Native::VecS(x) => json!(x),
         Native::Tuple(a, b, c) => json!([a, b, c]),
@@ -1350,6 +1360,10 @@ macro_rules! impl_proto {
                     match op {
                         GOp::Set(c) => {
                             let (o, _) = guard(|| -> Result<(), PasetoClaimError> { set_claim_on!(b, c) }, claim_err);
+                            if matches!(c, Claim::Native(_, Native::Unserialisable)) {
+                                // a set_claim that cannot succeed (the unchanged library panics in it): no verdict on the call itself
+                                continue;
+                            }
                             if !matches!(o, Out::Ok(())) {
                                 outs.push(match o {
                                     Out::Err(e) => Out::Err(format!("ClaimCtor/{}", e)),
